@@ -85,6 +85,7 @@ type VerifC14Snap struct {
 	Acls    map[string][]int        `json:"acls"`
 	Provs   [][]string              `json:"provs"`
 	Tp      [][]string              `json:"tp"`
+	Res     [][]string              `json:"res"` // per stored provider: name, what Get(strings.ToLower(name)) resolves to
 	Fs      [][]int                 `json:"fs"`
 	Ids     map[string]uint64       `json:"ids"`
 	Err     string                  `json:"err,omitempty"`
@@ -538,6 +539,18 @@ func (env *verifC14Env) snapshot(probe []int) (s VerifC14Snap) {
 			u = p.User.Value
 		}
 		s.Provs = append(s.Provs, []string{p.Name, p.Type, u})
+	}
+	s.Res = make([][]string, 0)
+	for _, p := range pl {
+		// the lookup of parseSource / httpDatasetSink / HttpTransform / the proxy dataset handler
+		u := "<none>"
+		if pr, ok := env.tps.Get(strings.ToLower(p.Name)); ok {
+			u = "?"
+			if bp, ok := pr.(security.BasicProvider); ok {
+				u = bp.User
+			}
+		}
+		s.Res = append(s.Res, []string{p.Name, u})
 	}
 	s.Tp = make([][]string, 0)
 	for n, p := range *env.tps.Providers {
